@@ -219,3 +219,17 @@ func (p *Program) pos(pos token.Pos) string {
 	ps := p.Fset.Position(pos)
 	return fmt.Sprintf("%s:%d", strings.TrimPrefix(ps.Filename, p.Repo+"/"), ps.Line)
 }
+
+// RepoFuncKeys lists the keys of all /repo functions with a body (closures included, test files and synthetic
+// wrappers excluded).
+func (p *Program) RepoFuncKeys() []string {
+	var out []string
+	for f := range ssautil.AllFunctions(p.Prog) {
+		if !p.InRepo(f) || f.Blocks == nil || f.Synthetic != "" {
+			continue
+		}
+		out = append(out, FuncKey(f))
+	}
+	sort.Strings(out)
+	return out
+}
